@@ -971,6 +971,31 @@ func (e *fnEnc) ret(i *ssa.Return) {
 	if !e.top || e.contract == nil {
 		return
 	}
+	// declared type invariants are re-established at every exit
+	invProps := append(append([]string{}, e.contract.Props...), e.contract.Extra["sweep"]...)
+	for _, p := range e.fn.Params {
+		if !e.writesType(p.Type()) {
+			continue
+		}
+		for k, f := range e.typeInvFormulas(e.val[p], p.Type(), e.cur) {
+			props := f.cl.Props
+			if len(props) == 0 {
+				props = invProps
+			}
+			name := e.vc.ordinal(fmt.Sprintf("%s#typeinv:%s.%d(%s)", FuncKey(e.fn), f.tn, k, p.Name()))
+			e.vc.oblige(&Obligation{Name: name, Kind: "typeinv", Guard: e.guard(), Cond: f.f, Props: props, Pos: i.Pos(), Src: "type invariant of " + f.tn + ": " + f.cl.Src})
+		}
+	}
+	for ri, r := range i.Results {
+		for k, f := range e.typeInvFormulas(vals[ri], r.Type(), e.cur) {
+			props := f.cl.Props
+			if len(props) == 0 {
+				props = invProps
+			}
+			name := e.vc.ordinal(fmt.Sprintf("%s#typeinv:%s.%d(result%d)", FuncKey(e.fn), f.tn, k, ri))
+			e.vc.oblige(&Obligation{Name: name, Kind: "typeinv", Guard: e.guard(), Cond: f.f, Props: props, Pos: i.Pos(), Src: "type invariant of returned " + f.tn + ": " + f.cl.Src})
+		}
+	}
 	env := e.resultEnv(vals, e.cur)
 	for k, cl := range e.contract.Ensures {
 		f, err := env.Bool(cl.Expr)
@@ -979,7 +1004,7 @@ func (e *fnEnc) ret(i *ssa.Return) {
 		}
 		props := cl.Props
 		if len(props) == 0 {
-			props = e.contract.Props
+			props = e.contract.AllProps()
 		}
 		tag := cl.Tag
 		if tag == "" {
